@@ -120,6 +120,24 @@ def run(tier, seed):
                     if k not in ident or any(v not in ident[k] for v in vals):
                         violations.append({'name': 'bounded[policy-filter]', 'what': 'attribute %r / values %r not in the identity' % (k, vals)})
                 distinct.add(('besteffort', repr(sorted(ident)), repr(rest), repr(req), repr(sorted(dict(ast)))))
+    # 5. a per-SP policy entry that only tunes an unrelated setting still inherits the restrictions of "default"
+    for ident in idents:
+        for rest in RESTRICTIONS[1:]:
+            n += 1
+            conf = {'default': {'attribute_restrictions': rest}, 'https://sp.example.org': {'lifetime': {'minutes': 5}},
+                    'https://other.example.org': {'attribute_restrictions': None}}
+            ast = assertion.Assertion(copy.deepcopy(ident))
+            try:
+                ast.apply_policy('https://sp.example.org', assertion.Policy(conf), MD(None))
+            except MissingValue:
+                continue
+            for k, vals in dict(ast).items():
+                if k.lower() not in rest:
+                    violations.append({'name': 'bounded[policy-filter]', 'what': 'SP entry without restrictions of its own: attribute %r released although the '
+                                       'default restrictions are %r' % (k, rest)})
+                elif rest[k.lower()] is not None and any(not any(re.match(p, v) for p in rest[k.lower()]) for v in vals):
+                    violations.append({'name': 'bounded[policy-filter]', 'what': 'SP entry without restrictions of its own: a value of %r does not match %r' % (k, rest[k.lower()])})
+            distinct.add(('per-sp', repr(sorted(ident)), repr(rest), repr(sorted(dict(ast)))))
     # 4. entity categories: only what the categories the SP actually carries entitle it to (a combined rule needs ALL its categories)
     from saml2_tophat.entity_category import swamid
     ec_ident = {'givenName': ['Ann'], 'sn': ['Smith'], 'mail': ['a@example.org'], 'c': ['SE'], 'eduPersonTargetedID': ['tid'],
